@@ -29,6 +29,7 @@ use std::time::{Duration, SystemTime, UNIX_EPOCH};
 pub const PTTL_NO_EXPIRE: &[u8] = b"-1";
 pub const PTTL_KEY_NOT_FOUND: &[u8] = b"-2";
 pub const RESTORE_NO_EXPIRE: &[u8] = b"0";
+const RESTORE_MIN_EXPIRE: &[u8] = b"1";
 const BUSYKEY_ERROR: &[u8] = b"BUSYKEY";
 
 pub fn pttl_to_restore_expire_time(pttl: Vec<u8>) -> Vec<u8> {
@@ -37,6 +38,11 @@ pub fn pttl_to_restore_expire_time(pttl: Vec<u8>) -> Vec<u8> {
         // Reuse this vector
         expire_time.clear();
         expire_time.extend_from_slice(RESTORE_NO_EXPIRE)
+    } else if btoi::btoi::<i64>(&expire_time) == Ok(0) {
+        // PTTL could return 0 for a key that is about to expire (less than 1 ms left)
+        // while 0 means no expire for RESTORE. Use the smallest ttl instead.
+        expire_time.clear();
+        expire_time.extend_from_slice(RESTORE_MIN_EXPIRE)
     }
     expire_time
 }
